@@ -7,11 +7,11 @@ for p in sorted(glob.glob("/verif/seeded/*/meta.json")):
     d = os.path.dirname(p)
     notes = open(os.path.join(d, "notes.md"), errors="replace").read() if os.path.exists(os.path.join(d, "notes.md")) else ""
     title = next((ln.strip("# ").strip() for ln in notes.splitlines() if ln.strip()), "")
-    title = re.sub(r"^C\d\d\s*(seed)?\s*[/ ]?\s*[a-d]\s*[-–—:]+\s*", "", title)[:150].replace("|", "\\|")
+    title = re.sub(r"^C\d\d\s*(seed)?\s*[/ ]?\s*[a-f]\s*[-–—:]+\s*", "", title)[:150].replace("|", "\\|")
     rc = m.get("rechecked", {})
     own = [l for l in m.get("checks_on_patched_tree", {}).get(m["property"], {}).get("lines", [])]
     rules = sorted({l.split()[0] for l in own if l.startswith("R-")})
-    caught = " ".join(c.split("(")[0] for c in rc.get("caught_by", [])) or ",".join(m.get("checks_on_patched_tree", {}))
+    caught = " ".join(c.split("(")[0] + (" (exit 2: undecided, not reported as a violation)" if "rc=2" in c else "") for c in rc.get("caught_by", [])) or ",".join(m.get("checks_on_patched_tree", {}))
     rows.append(f"| {m['property']}/{m['seed']} | {', '.join(os.path.basename(f) for f in m['files'])} | {title} | {caught or 'NOT CAUGHT'} | {', '.join(rules)} |")
 print("| seed | file(s) | change (from the author's notes) | checks that report it | rules |")
 print("|---|---|---|---|---|")
